@@ -44,7 +44,7 @@ def make_patch(i, c):
 
 slots = queue.Queue()
 for k in range(jobs):
-    slots.put('c%d' % k)
+    slots.put(os.environ.get('CAMP_SLOT', 'c') + '%d' % k)
 resfile = os.path.join(out, 'results.json')
 results = json.load(open(resfile)) if os.path.exists(resfile) else {}
 
